@@ -115,6 +115,18 @@ func c05Env(shape string, serials [4]*big.Int) *c05env {
 		}
 		return out
 	}
+	// 300 entries with the target at a given position (entry counts / encodings beyond one-byte lengths)
+	manyAt := func(target *big.Int, at int) []*big.Int {
+		var out []*big.Int
+		for i := 0; i < 300; i++ {
+			if i == at {
+				out = append(out, target)
+			} else {
+				out = append(out, big.NewInt(int64(5000+i)))
+			}
+		}
+		return out
+	}
 	big20 := new(big.Int).Lsh(big.NewInt(0x7f), 152)
 	pm := func(v *big.Int, d int64) *big.Int {
 		x := new(big.Int).Add(v, big.NewInt(d))
@@ -126,11 +138,13 @@ func c05Env(shape string, serials [4]*big.Int) *c05env {
 	type rset = c05rset
 	pckSets := []rset{{"none", nil, true}, {"unrelated", []*big.Int{unrelated}, true}, {"leaf-1", []*big.Int{pm(leafSN, -1)}, true}, {"leaf+1", []*big.Int{pm(leafSN, 1)}, true},
 		{"20-byte", []*big.Int{big20}, true}, {"100-unrelated", many(nil), true}, {"cross:inter+tcb-signers", []*big.Int{interSN, tcbSN, qeSN}, true},
-		{"leaf", []*big.Int{leafSN}, false}, {"leaf-among-100", many(leafSN), false}, {"leaf-last", []*big.Int{unrelated, big20, leafSN}, false}}
+		{"leaf", []*big.Int{leafSN}, false}, {"leaf-among-100", many(leafSN), false}, {"leaf-last", []*big.Int{unrelated, big20, leafSN}, false},
+		{"leaf@128-of-300", manyAt(leafSN, 128), false}, {"leaf@256-of-300", manyAt(leafSN, 256), false}, {"leaf@299-of-300", manyAt(leafSN, 299), false}, {"300-unrelated", manyAt(unrelated, 7), true}}
 	rootSets := []rset{{"none", nil, true}, {"unrelated", []*big.Int{unrelated}, true}, {"inter-1", []*big.Int{pm(interSN, -1)}, true}, {"tcb+1", []*big.Int{pm(tcbSN, 1)}, true},
 		{"100-unrelated", many(nil), true}, {"cross:leaf", []*big.Int{leafSN}, true},
 		{"inter", []*big.Int{interSN}, false}, {"tcbinfo-signer", []*big.Int{tcbSN}, false}, {"qeidentity-signer", []*big.Int{qeSN}, false},
-		{"inter-among-100", many(interSN), false}, {"qeidentity-signer-last", []*big.Int{unrelated, qeSN}, false}}
+		{"inter-among-100", many(interSN), false}, {"qeidentity-signer-last", []*big.Int{unrelated, qeSN}, false},
+		{"inter@128-of-300", manyAt(interSN, 128), false}, {"tcbinfo-signer@299-of-300", manyAt(tcbSN, 299), false}}
 	type signer = c05signer
 	pckSigners := []signer{{"inter", pki.Inter, pki.InterKey, true}, {"root", pki.Root, pki.RootKey, false}, {"F.inter", F.Inter, F.InterKey, false},
 		{"inter-name/leaf-key", pki.Inter, pki.LeafKey, false}, {"inter-name/root-key", pki.Inter, pki.RootKey, false}}
